@@ -202,7 +202,7 @@ func Gen(prop, tier string, seed, run uint64) Plan {
 		cfg.MaxConvs = 8 + r.IntN(24)
 		cfg.MaxFiles = 3 + r.IntN(7)
 	}
-	if (prop == "C07" || prop == "C10" || prop == "C13" || prop == "C12" || prop == "C05") && r.IntN(3) == 0 {
+	if (prop == "C07" || prop == "C10" || prop == "C13" || prop == "C12" || prop == "C05" || prop == "C08") && r.IntN(3) == 0 {
 		// merge-heavy: many short conversations, most of them late, cut into many
 		// files — every new index file holds more streams than the ones before
 		// it, so merges cascade (merged files are merged again)
@@ -280,7 +280,7 @@ func Gen(prop, tier string, seed, run uint64) Plan {
 		order[i] = i
 	}
 	reversed := false
-	if r.IntN(4) == 0 || prop == "C06" && r.IntN(2) == 0 {
+	if r.IntN(4) == 0 || (prop == "C06" || prop == "C08") && r.IntN(2) == 0 {
 		// out of chronological order: streams get earlier packets later (reset
 		// streams; a stream first seen through a server packet even swaps its endpoints)
 		r.Shuffle(nf, func(i, j int) { order[i], order[j] = order[j], order[i] })
@@ -592,7 +592,7 @@ func Gen(prop, tier string, seed, run uint64) Plan {
 		bad := Op{C: CImp, K: "ImportBad", V: r.IntN(4)}
 		at := r.IntN(len(impOps) + 1)
 		impOps = append(impOps[:at], append([]Op{bad}, impOps[at:]...)...)
-	} else if (prop == "C10" || prop == "C05" || prop == "C07" || prop == "C06" || prop == "C16") && r.IntN(5) == 0 {
+	} else if (prop == "C10" || prop == "C05" || prop == "C08" || prop == "C07" || prop == "C06" || prop == "C16") && r.IntN(5) == 0 {
 		// a capture file that holds no packet (a rotated capture with only its header)
 		bad := Op{C: CImp, K: "ImportBad", V: 3}
 		if r.IntN(3) == 0 {
@@ -629,7 +629,7 @@ func Gen(prop, tier string, seed, run uint64) Plan {
 	if prop == "C13" && r.IntN(3) == 0 {
 		p.Restarts = []int{8 + r.IntN(40)}
 	}
-	if (prop == "C05" || prop == "C10" || prop == "C07" || prop == "C06" || prop == "C16") && r.IntN(4) == 0 {
+	if (prop == "C05" || prop == "C08" || prop == "C10" || prop == "C07" || prop == "C06" || prop == "C16") && r.IntN(4) == 0 {
 		p.Restarts = []int{5 + r.IntN(40)}
 		if r.IntN(3) == 0 {
 			p.Restarts = append(p.Restarts, p.Restarts[0]+3+r.IntN(30))
